@@ -513,7 +513,7 @@ impl Monitor for C06 {
          constant on the fibres and of wrong length (Some iff constant, q;v = u, never a panic), block-wise injections with size-0 blocks, non-injective and mistyped index maps, \
          FiniteFunction::new at max = target-1 / target / target+1, the structural maps (identity, terminal, constant, initial, inj0, inj1, twist, transpose), SemifiniteFunction and \
          SemifiniteArrow. Coequalizer oracle: surjective onto 0..k, q(f(i)) = q(g(i)), and partition equal to the flood-fill components of {f(i)-g(i)}. non-trivial = non-empty table or an \
-         Option decision; distinct = hash of the inputs. Also: SemifiniteArrow identities on the label set (never composable), TryFrom, initial_object, equality of finite functions (table and codomain) and of label arrays; a quarter of the universal-map cases go through a surjection built for the purpose (up to 12 classes, fibres of 1-6)."
+         Option decision; distinct = hash of the inputs. Also: SemifiniteArrow identities on the label set (never composable), TryFrom, initial_object, equality of finite functions (table and codomain) and of label arrays; a quarter of the universal-map cases go through a surjection built for the purpose (up to 12 classes, fibres of 1-6). Round 8: one class of 65-400 points given as a chain in a hostile order (from the far end backwards, forwards, shuffled, randomly oriented; optionally one outsider point joined to an end or the middle by the last pair); call histories: a coequalizer, exactly 2^8-1 or 2^16-1 unrelated tiny coequalizer calls on the same thread, then a different coequalizer over the same points and the first one again."
     }
     fn corpus_len(&self) -> u64 {
         let n = small_functions().len() as u64;
